@@ -50,12 +50,61 @@ func implPre(tx *bt.Tx, idx uint32, flag sighash.Flag, legacy bool) string {
 	return fmt.Sprintf("ok %s %s mut=%d", hex.EncodeToString(pre), hex.EncodeToString(dig), mut)
 }
 
+// implPreWithHistory: the same computation on a transaction object with a past.  A different transaction with the same
+// shape (outputs rotated and their scripts / values exchanged so that count and total are what they will be, sequence
+// numbers and scripts of the inputs altered) is hashed with several hash types on every input first, then edited IN PLACE,
+// field by field, into the transaction of the op; whatever the object remembered from before must not show.
+func implPreWithHistory(desc string, idx uint32, flag sighash.Flag, legacy bool) string {
+	target := parseDesc(desc)
+	w := parseDesc(desc)
+	n := len(w.Outputs)
+	for i := 0; i < n/2; i++ { // exchange the contents of outputs i and n-1-i (count and total unchanged)
+		a, b := w.Outputs[i], w.Outputs[n-1-i]
+		a.Satoshis, b.Satoshis = b.Satoshis, a.Satoshis
+		a.LockingScript, b.LockingScript = b.LockingScript, a.LockingScript
+	}
+	if n == 1 {
+		w.Outputs[0].LockingScript = scr(append([]byte{0x51}, *w.Outputs[0].LockingScript...))
+	}
+	for _, in := range w.Inputs {
+		in.SequenceNumber ^= 0x5a5a
+		in.PreviousTxOutIndex ^= 1
+	}
+	w.LockTime ^= 0x0101
+	for i := range w.Inputs {
+		for _, f := range []sighash.Flag{sighash.AllForkID, sighash.All, sighash.SingleForkID, sighash.Flag(0xc1), sighash.Flag(0x83)} {
+			_, _ = w.CalcInputSignatureHash(uint32(i), f)
+			_, _ = w.CalcInputPreimage(uint32(i), f|sighash.ForkID)
+			_, _ = w.CalcInputPreimageLegacy(uint32(i), f&^sighash.ForkID)
+		}
+	}
+	// edit in place into the target
+	w.Version, w.LockTime = target.Version, target.LockTime
+	for i, in := range w.Inputs {
+		t := target.Inputs[i]
+		in.SequenceNumber, in.PreviousTxOutIndex = t.SequenceNumber, t.PreviousTxOutIndex
+	}
+	for i, o := range w.Outputs {
+		o.Satoshis, o.LockingScript = target.Outputs[i].Satoshis, target.Outputs[i].LockingScript
+	}
+	return implPre(w, idx, flag, legacy)
+}
+
+// both: the fresh computation, or — if it differs — what the object with a history gave
+func implPreBoth(desc string, idx uint32, flag sighash.Flag, legacy bool) string {
+	fresh := implPre(parseDesc(desc), idx, flag, legacy)
+	if h := implPreWithHistory(desc, idx, flag, legacy); h != fresh {
+		return h
+	}
+	return fresh
+}
+
 func init() {
 	executors["C02.pre"] = func(a []string) string {
-		return implPre(parseDesc(a[0]), uint32(mustU(a[1], 32)), sighash.Flag(mustU(a[2], 8)), false)
+		return implPreBoth(a[0], uint32(mustU(a[1], 32)), sighash.Flag(mustU(a[2], 8)), false)
 	}
 	executors["C03.pre"] = func(a []string) string {
-		return implPre(parseDesc(a[0]), uint32(mustU(a[1], 32)), sighash.Flag(mustU(a[2], 8)), true)
+		return implPreBoth(a[0], uint32(mustU(a[1], 32)), sighash.Flag(mustU(a[2], 8)), true)
 	}
 	// SH.vec: pass-through of the node-generated vectors shipped in the repository; the
 	// "implementation" column is the node's expected digest (go-bt cannot represent 32-bit hash types)
